@@ -85,31 +85,32 @@ mod mac_capture__exp;
 mod mac_gensym_disj__par;
 mod mac_local_names__exppar;
 mod mac_disj__pari;
-mod stress_rel__pari;
-mod rnd_core_03__par;
-mod rnd_core_06__ser;
-mod rnd_core_08__pari;
-mod rnd_core_11__par;
-mod rnd_core_14__ser;
-mod rnd_core_16__pari;
-mod rnd_core_19__par;
-mod rnd_core_22__ser;
-mod rnd_core_24__pari;
-mod rnd_core_27__par;
-mod rnd_core_30__ser;
-mod rnd_agg_02__pari;
-mod rnd_agg_05__par;
-mod rnd_agg_08__ser;
-mod rnd_agg_10__pari;
-mod rnd_agg_13__par;
-mod rnd_prec_01__ser;
-mod rnd_prec_02__to;
-mod rnd_prec_04__par;
-mod rnd_prec_05__topar;
-mod rnd_prec_07__pari;
-mod rnd_prea_01__ser;
-mod rnd_prea_03__pari;
-mod rnd_prea_06__par;
+mod stress_set__pari;
+mod rnd_core_02__par;
+mod rnd_core_05__ser;
+mod rnd_core_07__pari;
+mod rnd_core_10__par;
+mod rnd_core_13__ser;
+mod rnd_core_15__pari;
+mod rnd_core_18__par;
+mod rnd_core_21__ser;
+mod rnd_core_23__pari;
+mod rnd_core_26__par;
+mod rnd_core_29__ser;
+mod rnd_agg_01__pari;
+mod rnd_agg_04__par;
+mod rnd_agg_07__ser;
+mod rnd_agg_09__pari;
+mod rnd_agg_12__par;
+mod rnd_agg_15__ser;
+mod rnd_prec_02__ser;
+mod rnd_prec_03__to;
+mod rnd_prec_05__par;
+mod rnd_prec_06__topar;
+mod rnd_prec_08__pari;
+mod rnd_prea_02__pari;
+mod rnd_prea_05__par;
+mod rnd_prea_08__ser;
 
 fn lookup(name: &str) -> fn() -> Box<dyn Driven> {
    match name {
@@ -190,31 +191,32 @@ fn lookup(name: &str) -> fn() -> Box<dyn Driven> {
       "mac_gensym_disj__par" => mac_gensym_disj__par::make,
       "mac_local_names__exppar" => mac_local_names__exppar::make,
       "mac_disj__pari" => mac_disj__pari::make,
-      "stress_rel__pari" => stress_rel__pari::make,
-      "rnd_core_03__par" => rnd_core_03__par::make,
-      "rnd_core_06__ser" => rnd_core_06__ser::make,
-      "rnd_core_08__pari" => rnd_core_08__pari::make,
-      "rnd_core_11__par" => rnd_core_11__par::make,
-      "rnd_core_14__ser" => rnd_core_14__ser::make,
-      "rnd_core_16__pari" => rnd_core_16__pari::make,
-      "rnd_core_19__par" => rnd_core_19__par::make,
-      "rnd_core_22__ser" => rnd_core_22__ser::make,
-      "rnd_core_24__pari" => rnd_core_24__pari::make,
-      "rnd_core_27__par" => rnd_core_27__par::make,
-      "rnd_core_30__ser" => rnd_core_30__ser::make,
-      "rnd_agg_02__pari" => rnd_agg_02__pari::make,
-      "rnd_agg_05__par" => rnd_agg_05__par::make,
-      "rnd_agg_08__ser" => rnd_agg_08__ser::make,
-      "rnd_agg_10__pari" => rnd_agg_10__pari::make,
-      "rnd_agg_13__par" => rnd_agg_13__par::make,
-      "rnd_prec_01__ser" => rnd_prec_01__ser::make,
-      "rnd_prec_02__to" => rnd_prec_02__to::make,
-      "rnd_prec_04__par" => rnd_prec_04__par::make,
-      "rnd_prec_05__topar" => rnd_prec_05__topar::make,
-      "rnd_prec_07__pari" => rnd_prec_07__pari::make,
-      "rnd_prea_01__ser" => rnd_prea_01__ser::make,
-      "rnd_prea_03__pari" => rnd_prea_03__pari::make,
-      "rnd_prea_06__par" => rnd_prea_06__par::make,
+      "stress_set__pari" => stress_set__pari::make,
+      "rnd_core_02__par" => rnd_core_02__par::make,
+      "rnd_core_05__ser" => rnd_core_05__ser::make,
+      "rnd_core_07__pari" => rnd_core_07__pari::make,
+      "rnd_core_10__par" => rnd_core_10__par::make,
+      "rnd_core_13__ser" => rnd_core_13__ser::make,
+      "rnd_core_15__pari" => rnd_core_15__pari::make,
+      "rnd_core_18__par" => rnd_core_18__par::make,
+      "rnd_core_21__ser" => rnd_core_21__ser::make,
+      "rnd_core_23__pari" => rnd_core_23__pari::make,
+      "rnd_core_26__par" => rnd_core_26__par::make,
+      "rnd_core_29__ser" => rnd_core_29__ser::make,
+      "rnd_agg_01__pari" => rnd_agg_01__pari::make,
+      "rnd_agg_04__par" => rnd_agg_04__par::make,
+      "rnd_agg_07__ser" => rnd_agg_07__ser::make,
+      "rnd_agg_09__pari" => rnd_agg_09__pari::make,
+      "rnd_agg_12__par" => rnd_agg_12__par::make,
+      "rnd_agg_15__ser" => rnd_agg_15__ser::make,
+      "rnd_prec_02__ser" => rnd_prec_02__ser::make,
+      "rnd_prec_03__to" => rnd_prec_03__to::make,
+      "rnd_prec_05__par" => rnd_prec_05__par::make,
+      "rnd_prec_06__topar" => rnd_prec_06__topar::make,
+      "rnd_prec_08__pari" => rnd_prec_08__pari::make,
+      "rnd_prea_02__pari" => rnd_prea_02__pari::make,
+      "rnd_prea_05__par" => rnd_prea_05__par::make,
+      "rnd_prea_08__ser" => rnd_prea_08__ser::make,
       _ => panic!("no such program variant in this shard: {}", name),
    }
 }
